@@ -7,6 +7,7 @@ import (
 	"encoding/hex"
 	"encoding/json"
 	"fmt"
+	"io"
 	"io/fs"
 	"os"
 	"path/filepath"
@@ -222,6 +223,82 @@ func c05CheckDecrypt(c c05DecCase, st *stats.Run) error {
 		if err != nil || !bytes.Equal(got, plain) {
 			return pbt.Failf("C05/reference-file-rejected", "a file written by the reference implementation (%v) decrypts for %s alone but not when %d unrelated identities precede it: %v", c.Recs, r, len(ring)-1, err)
 		}
+	}
+	return nil
+}
+
+// a reference-written payload of more than 65536 chunks, produced lazily: the
+// reader's chunk counter carries out of its low 16 bits
+type c05Huge struct {
+	Chunks int `json:"chunks"`
+}
+
+type lazyFile struct {
+	head   []byte
+	key    []byte
+	chunks int
+	next   int
+	buf    []byte
+	plain  []byte
+}
+
+func (l *lazyFile) Read(p []byte) (int, error) {
+	if len(l.head) > 0 {
+		n := copy(p, l.head)
+		l.head = l.head[n:]
+		return n, nil
+	}
+	if len(l.buf) == 0 {
+		if l.next == l.chunks {
+			return 0, io.EOF
+		}
+		pt := l.plain
+		if l.next == l.chunks-1 {
+			pt = l.plain[:10]
+		}
+		l.buf = refage.SealChunk(l.key, refage.Chunk{Counter: uint64(l.next), Final: l.next == l.chunks-1, Data: pt})
+		l.next++
+	}
+	n := copy(p, l.buf)
+	l.buf = l.buf[n:]
+	return n, nil
+}
+
+type patternWriter struct {
+	pat []byte
+	n   int64
+	bad int64
+}
+
+func (w *patternWriter) Write(p []byte) (int, error) {
+	for i, b := range p {
+		if b != w.pat[(w.n+int64(i))%int64(len(w.pat))] && w.bad == 0 {
+			w.bad = w.n + int64(i) + 1
+		}
+	}
+	w.n += int64(len(p))
+	return len(p), nil
+}
+
+func c05CheckHuge(c c05Huge, st *stats.Run) error {
+	p := hx.ThePool()
+	fk, nonce := hx.PRG(61, 16), hx.PRG(62, 16)
+	st.Case(true, stats.HashJSON(c), fmt.Sprintf("dec:huge-chunks=%d", c.Chunks))
+	f := refage.Build(fk, nonce, refStanza(p, hx.RecSpec{Kind: "x25519", Idx: 0}, fk, 9), nil)
+	plain := hx.PRG(63, chunk)
+	src := &lazyFile{head: append(f.Header.Marshal(), nonce...), key: refage.StreamKey(fk, nonce), chunks: c.Chunks, plain: plain}
+	r, err := age.Decrypt(src, p.X25519Identity(0))
+	if err != nil {
+		return pbt.Failf("C05/reference-file-rejected", "a reference-written file of %d chunks is rejected: %v", c.Chunks, err)
+	}
+	w := &patternWriter{pat: plain}
+	_, err = io.Copy(w, r)
+	want := int64(c.Chunks-1)*int64(chunk) + 10
+	if err != nil {
+		return pbt.Failf("C05/reference-file-rejected", "a reference-written file of %d chunks fails after %d plaintext bytes (chunk %d): %v", c.Chunks, w.n, w.n/int64(chunk), err)
+	}
+	if w.n != want || w.bad != 0 {
+		return pbt.Failf("C05/reference-file-wrong-plaintext", "a reference-written file of %d chunks decrypts to %d bytes (want %d), first wrong byte at %d", c.Chunks, w.n, want, w.bad-1)
 	}
 	return nil
 }
@@ -456,6 +533,12 @@ func TestC05(t *testing.T) {
 			s.St.Exhaust("a reference-written 258-chunk file (16 MiB)", 1)
 		}
 	}, dec)
+	pbt.Each(s, "decrypt-reference-written", func(yield func(c05Huge)) {
+		if (s.Thorough() && s.Shard == 1%s.Shards) || os.Getenv("VERIF_C05_HUGE") != "" {
+			yield(c05Huge{Chunks: 65538})
+			s.St.Exhaust("a reference-written 65538-chunk file (4 GiB), produced and checked as a stream", 1)
+		}
+	}, func(c c05Huge) error { return c05CheckHuge(c, s.St) })
 	pbt.Rapid(s, "identity-reuse", s.N(300, 2000), func(t *rapid.T) c05Seq {
 		c := c05Seq{Kind: rapid.SampledFrom([]string{"scrypt", "scrypt", "x25519", "ed25519", "rsa"}).Draw(t, "kind")}
 		n := rapid.IntRange(2, 5).Draw(t, "nfiles")
